@@ -46,10 +46,10 @@ func (s ParamFuncV) GoType() types.Type { return s.Ty }
 type rootKind int
 
 const (
-	rootLocal rootKind = iota // a local cell (non-escaping Alloc)
-	rootRef                   // a heap object identified by an Int ref
-	rootElem                  // element of a slice's backing array
-	rootGlobal                // package-level variable
+	rootLocal  rootKind = iota // a local cell (non-escaping Alloc)
+	rootRef                    // a heap object identified by an Int ref
+	rootElem                   // element of a slice's backing array
+	rootGlobal                 // package-level variable
 )
 
 type Step struct {
